@@ -182,12 +182,8 @@ public:
 	{
 		if (this == &b)
 			return;
-		if (--_rc() == 0) {
-			clear();
-			asl_destroy((AtomicCount*)&a[1]);
-		}
-		a = b.a;
-		++_rc();
+		HashMap t(b); // acquire first: b may live inside this map
+		swap(a, t.a); // t now holds the old table and releases it
 	}
 
 	~HashMap()
